@@ -130,7 +130,7 @@ def main():
     kf_active, _ = known_findings("C05")
     kf_ids = {e["id"] for e in kf_active}
     T = 160 if tier == "quick" else 480
-    env0 = {"XH_KNOWN": ",".join(sorted(kf_ids))}
+    env0 = {"XH_KNOWN": ",".join(sorted(kf_ids)), "XH_MENUS": "thorough" if tier != "quick" else "quick"}
     conds = []
     for i in range(len(cm.STRUCTS)):
         for j in range(len(cm.NEXT_IDS)):
